@@ -296,3 +296,16 @@ def canary():
         if not (res["C02"] or res["C03"] or res["C13"]):
             fails.append(f"{what} is not flagged by check_simulation")
     return fails
+
+
+def wf_hist(mj, hist):
+    """record in the evidence histogram whether the hypotheses of the Lean theorems (names distinct, `NextKeysNodup`, ...)
+    hold for this explored specification (driver op `wf`, LcmModel/WellFormed.lean); never a violation"""
+    try:
+        rep = driver().call({"op": "wf", "model": strip(mj)})
+    except HarnessError:
+        return
+    hist["theorem_hypotheses_hold"] = hist.get("theorem_hypotheses_hold", 0) + int(bool(rep["all"]))
+    for k, v in rep.items():
+        if k != "all" and not v:
+            hist[f"hypothesis_fails:{k}"] = hist.get(f"hypothesis_fails:{k}", 0) + 1
